@@ -35,6 +35,18 @@ def judge(strategy, x, lookup, fill, result, via):
                     [v.item() if hasattr(v, "item") else v for v in lookup], strategy, fill)
     ok = isinstance(result, np.ndarray) and result.ndim == 1 and len(result) == len(lookup) \
         and result.dtype.kind == "i" and [int(v) for v in result] == want
+    if ok and strategy == "closest":
+        # `want` compares the two ROUNDED float distances, as the documented formula read in floating point does.  The
+        # statement says "nearest": judged exactly, the rounded comparison is wrong when the distances differ by less than
+        # half an ulp of the larger one.  That is a known finding (K2), classified by its mechanism: the code agrees with
+        # the float-arithmetic reading and disagrees with the exact one.
+        xs_ = [v.item() if hasattr(v, "item") else v for v in x]
+        exact = [S.closest_exact(xs_, (q.item() if hasattr(q, "item") else q)) for q in lookup]
+        if exact != want:
+            ctx.violation("search:closest:nearest_by_exact_distance", Slot.case,
+                          {"x": x, "lookup": lookup, "got": result, "exact": exact, "via": via},
+                          mechanism="K2-closest-float-distances-round-to-a-tie")
+        return True
     if not ok:
         ctx.violation("search:%s%s" % (strategy, "" if fill else ":nofill"), Slot.case,
                       {"x": x, "lookup": lookup, "fill_not_valid": fill, "got": result, "want": want, "via": via})
